@@ -240,6 +240,132 @@ theorem flags_roundtrip_all (kind flag : ℕ) (hk : flagOk kind flag) (x : ℕ) 
     fun hx => flags_roundtrip frP _ b1 b2 b3 fr_ok.1 b4 b5 b6 fr_ok.2.2.2.2 kind flag hk x hx,
     fun hx => flags_roundtrip fpP _ c1 c2 c3 fp_ok.1 c4 c5 c6 fp_ok.2.2.2.2 kind flag hk x hx⟩
 
+
+def wideMask (k flag : ℕ) : ℕ := if k ≥ 8 then flag % 256 else (flag % 2 ^ k) * 2 ^ (8 - k)
+
+theorem flagBitsOf_wide (k : ℕ) (h : 3 ≤ k) : FP.flagBitsOf k = k := by
+  rcases k with _ | _ | _ | k
+  · omega
+  · omega
+  · omega
+  · rfl
+
+theorem flags_byte_wide : ∀ k, 3 ≤ k → k ≤ 8 → ∀ flag < 2 ^ k, ∀ b < 2 ^ (8 - k),
+    FP.flagsFromU8 k (Nat.lor b (wideMask k flag)) = some (flag, b) := by
+  intro k h3 h8
+  interval_cases k <;> decide +kernel
+
+/-- **serialisation with a user-defined flags type of 3 … 8 bits round-trips value and flags** (any field; `8·nl = n8`
+holds for Fq, Fr, Fp).  When the flags do not fit into the spare bits of the top byte the stream has one extra byte — the
+case in which the pinned tree's `deserialize_with_flags` indexed past its buffer (repaired by dca9ca3). -/
+theorem flags_roundtrip_wide (F : FP) (modLimbs : List ℕ) (hm : Lit.ofLimbs 64 modLimbs = F.m) (hml : ∀ l ∈ modLimbs, l < 2 ^ 64)
+    (hnl : modLimbs.length = F.nl) (hn : 0 < F.n8) (h8 : 8 * F.nl = F.n8)
+    (hmb : F.m ≤ 2 ^ F.bits) (hF : F.m < (2 ^ 64) ^ F.nl)
+    (k flag : ℕ) (hk3 : 3 ≤ k) (hk8 : k ≤ 8) (hf : flag < 2 ^ k) (x : ℕ) (hx : x < F.m) :
+    ∃ bytes, F.serWithFlags x k (wideMask k flag) = some bytes ∧ F.deserWithFlags k bytes modLimbs = .ok (x, flag) := by
+  obtain ⟨n, hn8⟩ : ∃ n, F.n8 = n + 1 := ⟨F.n8 - 1, by omega⟩
+  have hn8def : (F.bits + 7) / 8 = n + 1 := hn8
+  have hk2 : k > 2 := by omega
+  have hfb8 : ¬ k > 8 := by omega
+  have hxb : x < 2 ^ F.bits := lt_of_lt_of_le hx hmb
+  have hbl : F.bits ≤ 8 * (n + 1) := by omega
+  have hx256 : x < 256 ^ (n + 1) := by
+    calc x < 2 ^ F.bits := hxb
+      _ ≤ 2 ^ (8 * (n + 1)) := Nat.pow_le_pow_right (by norm_num) hbl
+      _ = 256 ^ (n + 1) := by rw [pow_mul]; norm_num
+  set b := x / 256 ^ n % 256 with hb
+  have hbytes : F.toBytesLe x = toLeBytes x n ++ [b] := by
+    unfold FP.toBytesLe; rw [hn8, toLeBytes_succ_snoc]
+  have hlen : (toLeBytes x n).length = n := toLeBytes_length x n
+  have hblen : (F.toBytesLe x).length = n + 1 := by rw [hbytes]; simp [hlen]
+  -- the value part of the decoder, common to both cases
+  have hval : ∀ rest : List ℕ, (F.fromBigint (toLimbs 64 (leBytes ((F.toBytesLe x ++ rest).take (8 * F.nl))) F.nl) modLimbs) = some x := by
+    intro rest
+    have htk : (F.toBytesLe x ++ rest).take (8 * F.nl) = F.toBytesLe x := by
+      rw [h8, hn8, List.take_left' hblen]
+    rw [htk]
+    have hle : leBytes (F.toBytesLe x) = x := by
+      unfold FP.toBytesLe; rw [hn8]; exact leBytes_toLeBytes x (n + 1) hx256
+    rw [hle]
+    have hxl : x < (2 ^ 64) ^ F.nl := lt_trans hx hF
+    obtain ⟨l1, l2, l3⟩ := toLimbs_spec 64 x F.nl hxl
+    exact (from_bigint_iff F modLimbs (toLimbs 64 x F.nl) hm hml (by rw [l1, hnl]) l2 x).mpr ⟨by rw [l3]; exact hx, l3.symm⟩
+  by_cases hfit : (F.bits + k + 7) / 8 = n + 1
+  · -- the flags share the top byte
+    have hb' : b < 2 ^ (8 - k) := by
+      have h1 : x / 256 ^ n < 2 ^ (8 - k) := by
+        rw [Nat.div_lt_iff_lt_mul (by positivity)]
+        calc x < 2 ^ F.bits := hxb
+          _ ≤ 2 ^ ((8 - k) + 8 * n) := Nat.pow_le_pow_right (by norm_num) (by omega)
+          _ = 2 ^ (8 - k) * 256 ^ n := by rw [pow_add, pow_mul]; norm_num
+      exact lt_of_le_of_lt (Nat.mod_le _ _) h1
+    refine ⟨toLeBytes x n ++ [Nat.lor b (wideMask k flag)], ?_, ?_⟩
+    · unfold FP.serWithFlags
+      rw [if_neg hfb8]
+      simp only [hbytes, hfit, List.length_append, hlen, List.length_singleton, beq_self_eq_true, if_true, Nat.add_sub_cancel]
+      rw [List.take_left' hlen]
+      congr 3
+      rw [List.getD_eq_getElem?_getD, List.getElem?_append_right (by omega), hlen, Nat.sub_self]
+      rfl
+    · unfold FP.deserWithFlags
+      rw [if_pos hk2]
+      unfold FP.deserWithFlagsWide
+      simp only [flagBitsOf_wide k hk3, hfit, hn8def, List.length_append, hlen, List.length_singleton, lt_irrefl, if_false, Nat.add_sub_cancel]
+      have htake : (toLeBytes x n ++ [Nat.lor b (wideMask k flag)]).take (n + 1) = toLeBytes x n ++ [Nat.lor b (wideMask k flag)] := by
+        apply List.take_of_length_le; simp [hlen]
+      rw [htake]
+      have hget : (toLeBytes x n ++ [Nat.lor b (wideMask k flag)]).getD n 0 = Nat.lor b (wideMask k flag) := by
+        rw [List.getD_eq_getElem?_getD, List.getElem?_append_right (by omega), hlen, Nat.sub_self]; rfl
+      rw [hget, flags_byte_wide k hk3 hk8 flag hf b hb']
+      simp only []
+      rw [List.take_left' hlen, ← hbytes]
+      rw [hval]
+  · -- one extra byte carries the flags
+    have hfit2 : (F.bits + k + 7) / 8 = n + 2 := by omega
+    refine ⟨F.toBytesLe x ++ [wideMask k flag], ?_, ?_⟩
+    · unfold FP.serWithFlags
+      rw [if_neg hfb8]
+      have : ((F.toBytesLe x).length == (F.bits + k + 7) / 8) = false := by
+        rw [hblen, hfit2]; simp
+      simp only [this, Bool.false_eq_true, if_false]
+    · unfold FP.deserWithFlags
+      rw [if_pos hk2]
+      unfold FP.deserWithFlagsWide
+      simp only [flagBitsOf_wide k hk3, hfit2, hn8def, List.length_append, hblen, List.length_singleton, lt_irrefl, if_false]
+      have htake : (F.toBytesLe x ++ [wideMask k flag]).take (n + 2) = F.toBytesLe x ++ [wideMask k flag] := by
+        apply List.take_of_length_le; simp [hblen]
+      rw [htake]
+      have e21 : n + 2 - 1 = n + 1 := by omega
+      rw [e21]
+      have hget : (F.toBytesLe x ++ [wideMask k flag]).getD (n + 1) 0 = wideMask k flag := by
+        rw [List.getD_eq_getElem?_getD, List.getElem?_append_right (by omega), hblen, Nat.sub_self]; rfl
+      rw [hget]
+      have h0 := flags_byte_wide k hk3 hk8 flag hf 0 (by positivity)
+      rw [show Nat.lor 0 (wideMask k flag) = wideMask k flag from Nat.zero_or _] at h0
+      rw [h0]
+      simp only []
+      rw [List.take_left' hblen, List.append_assoc, hval]
+/-- the round trip with user-defined flag types of 3 … 8 bits for Fq, Fr and Fp with the published modulus limbs -/
+theorem flags_roundtrip_wide_all (k flag : ℕ) (hk3 : 3 ≤ k) (hk8 : k ≤ 8) (hf : flag < 2 ^ k) (x : ℕ) :
+    (x < fqP.m → ∃ bytes, fqP.serWithFlags x k (wideMask k flag) = some bytes ∧
+      fqP.deserWithFlags k bytes Gen.fields_fq.Fq.MODULUS_LIMBS.nats = .ok (x, flag)) ∧
+    (x < frP.m → ∃ bytes, frP.serWithFlags x k (wideMask k flag) = some bytes ∧
+      frP.deserWithFlags k bytes Gen.fields_fr.Fr.MODULUS_LIMBS.nats = .ok (x, flag)) ∧
+    (x < fpP.m → ∃ bytes, fpP.serWithFlags x k (wideMask k flag) = some bytes ∧
+      fpP.deserWithFlags k bytes Gen.fields_fp.Fp.MODULUS_LIMBS.nats = .ok (x, flag)) := by
+  obtain ⟨a1, a2, a3, _, _, a6⟩ := flags_side_fq
+  obtain ⟨b1, b2, b3, _, _, b6⟩ := flags_side_fr
+  obtain ⟨c1, c2, c3, _, _, c6⟩ := flags_side_fp
+  have e1 : 8 * fqP.nl = fqP.n8 := by decide +kernel
+  have e2 : 8 * frP.nl = frP.n8 := by decide +kernel
+  have e3 : 8 * fpP.nl = fpP.n8 := by decide +kernel
+  exact ⟨fun hx => flags_roundtrip_wide fqP _ a1 a2 a3 fq_ok.1 e1 a6 fq_ok.2.2.2.2 k flag hk3 hk8 hf x hx,
+    fun hx => flags_roundtrip_wide frP _ b1 b2 b3 fr_ok.1 e2 b6 fr_ok.2.2.2.2 k flag hk3 hk8 hf x hx,
+    fun hx => flags_roundtrip_wide fpP _ c1 c2 c3 fp_ok.1 e3 c6 fp_ok.2.2.2.2 k flag hk3 hk8 hf x hx⟩
+
+/-- non-vacuity: a 4-bit flags type on Fq needs the extra byte (33 bytes), a 3-bit one does not -/
+example : (fqP.bits + 4 + 7) / 8 = fqP.n8 + 1 ∧ (fqP.bits + 3 + 7) / 8 = fqP.n8 := by decide +kernel
+
 /-- the integer a decimal digit string denotes -/
 def decVal (s : List Char) : ℕ := s.foldl (fun a c => 10 * a + (c.toNat - 48)) 0
 
